@@ -386,6 +386,8 @@ func c16Child(c *Ctx) error {
 // streaming garbler's result loop is the same per-label decode.
 const c16StreamProgram = "package main\nfunc main(a, b uint8) (uint8, bool) {\n\ts := a + b\n\treturn s ^ (a & b), s < a\n}\n"
 
+var dumpHdr bool
+
 func c16RunStream(seed uint64, av, bv int, f *fault) (gRes []*big.Int, gErr error, stalled bool, lg, le int) {
 	return c16RunStreamProg(seed, c16StreamProgram, []string{fmt.Sprint(av)}, []string{fmt.Sprint(bv)}, f)
 }
@@ -467,6 +469,13 @@ func c16RunStreamProg(seed uint64, src string, gIn, eIn []string, f *fault) (gRe
 	}
 	g2e.mu.Lock()
 	lg = len(g2e.log)
+	if dumpHdr {
+		n := lg
+		if n > 200 {
+			n = 200
+		}
+		fmt.Fprintf(os.Stderr, "%q\n", g2e.log[:n])
+	}
 	g2e.mu.Unlock()
 	e2g.mu.Lock()
 	le = len(e2g.log)
@@ -541,46 +550,77 @@ func c16StreamChild(c *Ctx, w *bufio.Writer, startAt int) error {
 		fmt.Fprintf(w, "END %s\n", b)
 		w.Flush()
 	}
-	// Directed: the evaluator's argument is a struct; corrupt the program-info
-	// handshake (the transmitted argument types carry the member sizes).
+	// Directed: corrupt the program-info handshake (garbler -> evaluator: the transmitted
+	// argument names, type strings and sizes) densely, for programs whose evaluator
+	// argument is a scalar (two widths), a struct and an array.  The evaluator learns its
+	// argument's type from this handshake and packs its input accordingly.
 	structSrc := "package main\ntype In struct {\n\tx uint8\n\ty uint8\n}\nfunc main(a uint8, b In) uint16 {\n\treturn uint16(a) + uint16(b.x) * 3 + uint16(b.y) * 7\n}\n"
-	sgIn := []string{"1"}
-	seIn := []string{"200", "100"}
-	swant := []*big.Int{big.NewInt(1 + 600 + 700)}
-	sres, serr, sst, _, _ := c16RunStreamProg(seed, structSrc, sgIn, seIn, nil)
-	if serr != nil || sst || bigsString(sres) != bigsString(swant) {
-		fmt.Fprintf(w, "BASEFAIL streaming struct baseline: %v %v %s\n", serr, sst, bigsString(sres))
-		return nil
+	arraySrc := "package main\nfunc main(a uint8, b [4]uint8) uint16 {\n\treturn uint16(a) + uint16(b[0]) + uint16(b[1]) * 3 + uint16(b[2]) * 5 + uint16(b[3]) * 7\n}\n"
+	wideSrc := "package main\nfunc main(a, b uint32) uint32 {\n\treturn a + b\n}\n"
+	bits4 := []byte{0x01, 0x02, 0x04, 0x08}
+	bits8 := []byte{0x01, 0x02, 0x04, 0x08, 0x10, 0x20, 0x40, 0x80}
+	// quick tier: the evaluator argument's descriptor (offsets 56..92 in these programs: name,
+	// type string, size, member count) with the masks that turn a width digit into a smaller
+	// digit or change a count/size byte; thorough: the whole handshake, every bit
+	scalarMasks, arrayMasks := []byte{0x01, 0x02, 0x08}, []byte{0x01, 0x04}
+	lo, hi := 56, 92
+	if c.Thorough() {
+		scalarMasks, arrayMasks = bits8, bits8
+		lo, hi = 36, 150
 	}
-	base := len(faults)
-	k := 0
-	for off := 36; off < 140; off++ {
-		for _, m := range []byte{0x04, 0xff} {
-			fi := base + k
-			k++
-			if fi < startAt {
-				continue
-			}
-			f := fault{dir: "g2e", off: off, kind: "replace", mask: m}
-			fmt.Fprintf(w, "BEGIN %d stream-struct:g2e:%d:%02x\n", fi, off, m)
-			w.Flush()
-			rec := c16Rec{Fi: fi, Dir: "stream-struct-g2e", Kind: "handshake", Off: off, Circuit: "streaming: " + structSrc}
-			gres, gerr, st, _, _ := c16RunStreamProg(seed, structSrc, sgIn, seIn, &f)
-			switch {
-			case gerr == nil && gres != nil && !st:
-				rec.Outcome = "result"
-				if bigsString(gres) != bigsString(swant) {
-					rec.Wrong = &c16Replay{Seed: c.Seed, Circuit: "streaming: " + structSrc, OT: "co", X: "1", Y: "200,100",
-						Dir: "g2e", Offset: off, Kind: "handshake-argument-type", Mask: int(m), Got: bigsString(gres), Want: bigsString(swant)}
+	_ = bits4
+	sweeps := []struct {
+		dir    string
+		src    string
+		gIn    []string
+		eIn    []string
+		kind   string // "flip" (xor mask) or "replace" (set byte to mask)
+		masks  []byte
+		lo, hi int
+	}{
+		{"stream-struct-g2e", structSrc, []string{"1"}, []string{"200", "100"}, "replace", []byte{0x04, 0xff}, 36, 140},
+		{"stream-scalar8-g2e", c16StreamProgram, []string{"77"}, []string{"218"}, "flip", scalarMasks, lo, hi},
+		{"stream-scalar32-g2e", wideSrc, []string{"305419896"}, []string{"4275878552"}, "flip", scalarMasks, lo, hi},
+		{"stream-array-g2e", arraySrc, []string{"1"}, []string{"0xc8641e0a"}, "flip", arrayMasks, lo, hi},
+	}
+	fi := len(faults)
+	for _, sw := range sweeps {
+		swant, serr, sst, slg, _ := c16RunStreamProg(seed, sw.src, sw.gIn, sw.eIn, nil)
+		if serr != nil || sst || len(swant) == 0 {
+			fmt.Fprintf(w, "BASEFAIL %s baseline: %v %v %s\n", sw.dir, serr, sst, bigsString(swant))
+			return nil
+		}
+		if sw.dir == "stream-struct-g2e" && bigsString(swant) != bigsString([]*big.Int{big.NewInt(1 + 600 + 700)}) {
+			fmt.Fprintf(w, "BASEFAIL %s baseline: wrong value %s\n", sw.dir, bigsString(swant))
+			return nil
+		}
+		for off := sw.lo; off < sw.hi && off < slg; off++ {
+			for _, m := range sw.masks {
+				fi++
+				if fi < startAt {
+					continue
 				}
-			case st && gerr == nil:
-				rec.Outcome = "stalled"
-			default:
-				rec.Outcome = "error"
+				f := fault{dir: "g2e", off: off, kind: sw.kind, mask: m}
+				fmt.Fprintf(w, "BEGIN %d %s:%d:%02x\n", fi, sw.dir, off, m)
+				w.Flush()
+				rec := c16Rec{Fi: fi, Dir: sw.dir, Kind: "handshake", Off: off, Circuit: "streaming: " + sw.src}
+				gres, gerr, st, _, _ := c16RunStreamProg(seed, sw.src, sw.gIn, sw.eIn, &f)
+				switch {
+				case gerr == nil && gres != nil && !st:
+					rec.Outcome = "result"
+					if bigsString(gres) != bigsString(swant) {
+						rec.Wrong = &c16Replay{Seed: c.Seed, Circuit: "streaming: " + sw.src, OT: "co", X: strings.Join(sw.gIn, ","), Y: strings.Join(sw.eIn, ","),
+							Dir: "g2e", Offset: off, Kind: "handshake-argument-type:" + sw.kind, Mask: int(m), Got: bigsString(gres), Want: bigsString(swant)}
+					}
+				case st && gerr == nil:
+					rec.Outcome = "stalled"
+				default:
+					rec.Outcome = "error"
+				}
+				b, _ := json.Marshal(rec)
+				fmt.Fprintf(w, "END %s\n", b)
+				w.Flush()
 			}
-			b, _ := json.Marshal(rec)
-			fmt.Fprintf(w, "END %s\n", b)
-			w.Flush()
 		}
 	}
 	fmt.Fprintln(w, "DONE")
